@@ -5,6 +5,8 @@ Two harness-level cuts, both opt-in per path through I.path_state:
   * 'leaves'  : {(char lo, char hi): Real expr}  -- `<Rational as FromStr>::from_str` on exactly that slice of the query
                 returns the given symbolic rational instead of reading digits (C07 proves the cut function equal to the
                 literal's value); any other slice runs the real from_str.
+  * 'ints'    : {(char lo, char hi): Int expr}   -- `str::parse::<i32>` on exactly that slice returns the given symbolic i32
+                (unit exponents `^n`); any other slice runs the real integer parser model.
   * 'lookup'  : callable(I, StrS) -> Result<Option<Match>>  -- environment stub of Db::lookup (tantivy); absent = panic.
 """
 import re, z3
@@ -33,6 +35,13 @@ def install(I):
         f = I.path_state.get('lookup')
         if f is None: raise PathEnd('panic', 'Db::lookup reached without an environment stub')
         return f(I, gs(I, a[1]))
+    def int_parse_cut(I, m, a, dt):
+        ints = I.path_state.get('ints')
+        if ints is None: raise Fallthrough()
+        s = gs(I, a[0]); key = (s.lo, s.hi)
+        if key not in ints: raise Fallthrough()
+        return ok(VInt(ints[key], 'i32'))
+    MODELS.insert(0, (re.compile(r'^core::str::<impl str>::parse::<i32>$|^<i32 as (?:std::str::)?FromStr>::from_str$'), int_parse_cut))
     MODELS.insert(0, (re.compile(r'^<(?:rational::)?Rational as (?:std::str::)?FromStr>::from_str$'), from_str_cut))
     MODELS.insert(0, (re.compile(r"^(?:db::)?Db::lookup$"), db_lookup))
     I.model_cache.clear()
